@@ -59,6 +59,10 @@ pub struct CaseSpec {
 	/// the device's internal buffer is three times the callback size: every callback is one SHORT chunk, and all times
 	/// (fades, delays, positions, the clock) must still be counted in the frames actually rendered
 	pub short_chunks: bool,
+	pub easing: Easing,
+	/// resume() is given a fade-in tween whose own start is delayed by this many chunks: the sound is Resuming (silent, advancing)
+	/// at once and Playing when the delayed fade has ended
+	pub late_resume: Option<f64>,
 }
 
 #[derive(Clone, Copy, Debug, PartialEq)]
@@ -74,8 +78,14 @@ enum M {
 	Stopped,
 }
 
+thread_local! {
+	/// the easing curve of every fade of the case being run (the life cycle does not depend on it: fades complete when their tween
+	/// completes, the gain moves monotonically and stays within [0, unity] for every curve)
+	static EASING: std::cell::Cell<Easing> = const { std::cell::Cell::new(Easing::Linear) };
+}
+
 fn tween(chunks: f64) -> Tween {
-	Tween { start_time: StartTime::Immediate, duration: Duration::from_secs_f64(chunks * chunk_dt()), easing: Easing::Linear }
+	Tween { start_time: StartTime::Immediate, duration: Duration::from_secs_f64(chunks * chunk_dt()), easing: EASING.with(|e| e.get()) }
 }
 
 enum H {
@@ -137,6 +147,7 @@ fn cmd_code(c: &Cmd) -> u8 {
 }
 
 pub fn run_case(c: &CaseSpec, cov: &mut Cov) -> Result<Vec<u8>, String> {
+	EASING.with(|e| e.set(c.easing));
 	let mut rig = Rig::simple(SR, if c.short_chunks { CHUNK * 3 } else { CHUNK });
 	let mut track: TrackHandle = rig.mgr.add_sub_track(TrackBuilder::new().sound_capacity(1)).map_err(|_| "track")?;
 	let mut clock: ClockHandle = rig.mgr.add_clock(ClockSpeed::TicksPerSecond(1.0 / chunk_dt())).map_err(|_| "clock")?;
@@ -208,9 +219,14 @@ pub fn run_case(c: &CaseSpec, cov: &mut Cov) -> Result<Vec<u8>, String> {
 					}
 				}
 				Cmd::Resume(d) => {
-					on_handle!(&mut h, x => x.resume(tween(d)));
+					let w = c.late_resume.unwrap_or(0.0);
+					let mut tw = tween(d);
+					if w > 0.0 {
+						tw.start_time = StartTime::Delayed(Duration::from_secs_f64(w * chunk_dt()));
+					}
+					on_handle!(&mut h, x => x.resume(tw));
 					if m != M::Stopped {
-						m = M::Resuming(now + d);
+						m = M::Resuming(now + w + d);
 					}
 				}
 				Cmd::ResumeDelayed(w, d) => {
@@ -502,6 +518,8 @@ fn gen_random(r: &mut Rng) -> CaseSpec {
 		cmds,
 		tail: 12,
 		short_chunks: r.chance(0.3),
+		easing: if r.chance(0.4) { Easing::Linear } else { crate::props::c06::gen_easing(r) },
+		late_resume: if r.chance(0.25) { Some(r.f64_in(0.5, 4.0)) } else { None },
 	}
 }
 
@@ -528,7 +546,7 @@ pub fn run(ctx: &mut Ctx) {
 					x /= ng as u64;
 					cmds.push((if i == 0 { GAPS[gi] } else { GAPS[gi].max(1) }, a[ci]));
 				}
-				let c = CaseSpec { streaming: false, finite: if code % 5 == 4 { Some(10 + (code % 7) as usize * 5) } else { None }, fade_in: None, start_delay: None, cmds, tail: 8, short_chunks: code % 3 == 1 };
+				let c = CaseSpec { streaming: false, finite: if code % 5 == 4 { Some(10 + (code % 7) as usize * 5) } else { None }, fade_in: None, start_delay: None, cmds, tail: 8, short_chunks: code % 3 == 1, easing: [Easing::Linear, Easing::InOutPowi(3), Easing::OutPowi(3), Easing::InPowf(2.5), Easing::InOutPowf(0.5)][(code % 5) as usize], late_resume: None };
 				one(ctx, "enum", idx, &c, &mut cov);
 			}
 			idx += 1;
